@@ -397,6 +397,38 @@ var yieldOp = &plainOp{"yield"}
 var startOp = &plainOp{"start"}
 var spawnOp = &plainOp{"go"}
 
+// quiesceOp is enabled only when no other thread can run: the environment thread uses it to let the program
+// digest one event completely before the next one.
+type quiesceOp struct{ s *Sched }
+
+//go:norace
+func (o *quiesceOp) enabled() bool {
+	for _, t := range o.s.threads {
+		if t.done || t.pending == nil || t == o.s.cur && false {
+			continue
+		}
+		if _, isQ := t.pending.(*quiesceOp); isQ {
+			continue
+		}
+		if t.pending.enabled() {
+			return false
+		}
+	}
+	return true
+}
+
+//go:norace
+func (o *quiesceOp) name() string { return "wait until every other thread is blocked" }
+
+// Quiesce blocks the calling (harness) thread until no other thread can run.
+//
+//go:norace
+func Quiesce() {
+	if s := active; s != nil && !s.aborting {
+		s.point(&quiesceOp{s})
+	}
+}
+
 // P is a statement-level scheduling point.
 //
 //go:norace
